@@ -543,7 +543,9 @@ OnIn(h, pkt) ==
   ELSE IF d.t = CONNACK THEN [h0 EXCEPT !.op.unexp = TRUE]
   ELSE IF d.t = PUBLISH THEN InPublish(h0, d)
   ELSE IF d.t \in {PUBACK, PUBREC, PUBCOMP, SUBACK, UNSUBACK} THEN InAck(h0, d)
-  ELSE IF d.t = PUBREL /\ NoAckFits(h) THEN [h0 EXCEPT !.op.nofit = TRUE]
+  \* (as built, the identifier is released when the PUBREL is read, before the PUBCOMP is size-checked: a
+  \* retransmitted PUBREL is then answered with packet-identifier-not-found -- harmless, the message was delivered)
+  ELSE IF d.t = PUBREL /\ NoAckFits(h) THEN [h0 EXCEPT !.op.nofit = TRUE, !.sids = @ \ {d.id}]
   ELSE IF d.t = PUBREL THEN
        [h0 EXCEPT !.owed = Append(@, OwedAck(PUBCOMP, d.id, IF d.id \in h.sids THEN 0 ELSE 146, h.ci)),
                   !.sids = @ \ {d.id}]
